@@ -2,6 +2,7 @@ package main
 
 import (
 	"encoding/json"
+	"os/exec"
 	"flag"
 	"fmt"
 	"os"
@@ -540,6 +541,57 @@ func cmdSelftest(args []string) int {
 		return 1
 	}
 	fmt.Printf("selftest: utf8.DecodeRune term model agrees with the real function on %d inputs\n", n)
+	if os.Getenv("SYMGO_SKIP_REFS") == "" {
+		if out, err := validateReferences("/repo", "/verif"); err != nil {
+			fmt.Println("selftest: reference decoder validation failed:", err)
+			fmt.Println(out)
+			return 1
+		} else {
+			fmt.Println("selftest: reference JSON decoder (zzjson) agrees with encoding/json:", lastLine(out))
+		}
+	}
 	fmt.Println("selftest ok")
 	return 0
+}
+
+func lastLine(s string) string {
+	lines := strings.Split(strings.TrimSpace(s), "\n")
+	for i := len(lines) - 1; i >= 0; i-- {
+		if strings.Contains(lines[i], "checked") || strings.HasPrefix(lines[i], "PASS") {
+			return strings.TrimSpace(lines[i])
+		}
+	}
+	return lines[len(lines)-1]
+}
+
+// validateReferences builds and runs the native test of the harnesses' reference
+// JSON decoder (zzverif/zzjson) against encoding/json.
+func validateReferences(repoDir, verifDir string) (string, error) {
+	dir, err := os.MkdirTemp("", "symgo-refs-")
+	if err != nil {
+		return "", err
+	}
+	defer os.RemoveAll(dir)
+	repl := map[string]string{}
+	zzroot := filepath.Join(verifDir, "zzverif")
+	filepath.Walk(zzroot, func(path string, info os.FileInfo, err error) error {
+		if err == nil && !info.IsDir() && strings.HasSuffix(path, ".go") {
+			rel, _ := filepath.Rel(zzroot, path)
+			repl[filepath.Join(repoDir, "zzverif", rel)] = path
+		}
+		return nil
+	})
+	data, _ := json.Marshal(map[string]interface{}{"Replace": repl})
+	ov := filepath.Join(dir, "overlay.json")
+	os.WriteFile(ov, data, 0o644)
+	bin := filepath.Join(dir, "zzjson.test")
+	cmd := exec.Command("go", "test", "-vet=off", "-c", "-o", bin, "-overlay", ov, "./zzverif/zzjson")
+	cmd.Dir = repoDir
+	cmd.Env = append(os.Environ(), "GOFLAGS=-mod=mod", "GOPROXY=off", "GOSUMDB=off", "GOTOOLCHAIN=local")
+	if out, err := cmd.CombinedOutput(); err != nil {
+		return string(out), err
+	}
+	run := exec.Command(bin, "-test.v")
+	out, err := run.CombinedOutput()
+	return string(out), err
 }
